@@ -245,16 +245,18 @@ def run(chk: Check, model):
     rule_reset_complete(chk, view, "C05.reset")
     # the episode clock: between reset and start every reader of the clock (now / throttle, also from connection threads) waits for the
     # start time of *this* episode: reset installs a pending future, _set_ts_start resolves it before replacing it by the value
-    r_rs, r_st = view.results["node._reset"], view.results["node._set_ts_start"]
+    # (the resolving function: _set_ts_start, or _start itself when the helper is written out there)
+    k_st = "node._set_ts_start" if "node._set_ts_start" in view.results else "node._start"
+    r_rs, r_st = view.results["node._reset"], view.results[k_st]
     fut = r_rs.attr("self", "_ts_start")
     chk.add("C05.reset", "episode clock: reset installs a pending start time", fut[0] == "call" and T.call_name(fut).endswith("Future") and not fut[2],
             f"node._reset stores self._ts_start = {T.show(fut)[:80]}, expected a fresh Future() (otherwise a reader that comes before _start uses the previous episode's start time)",
             chk.loc(view.fi("node._reset")))
     res = [e for e in r_st.events if e.kind == "call" and e.name == "self._ts_start.set_result"]
     sto = [e for e in r_st.events if e.kind == "store_attr" and e.name == "self._ts_start"]
-    ok = len(res) == 1 and len(sto) == 1 and res[0].idx < sto[0].idx and res[0].args == (S("ts_start"),) and sto[0].term == S("ts_start") and res[0].guard == T.TRUE
+    ok = len(res) == 1 and len(sto) == 1 and res[0].idx < sto[0].idx and len(res[0].args) == 1 and res[0].args[0][0] == "sym" and sto[0].term == res[0].args[0] and res[0].guard == T.TRUE
     chk.add("C05.reset", "episode clock: _set_ts_start wakes the waiting readers with the start time, then stores it", ok,
-            "_set_ts_start must call self._ts_start.set_result(ts_start) on the pending future before replacing it", chk.loc(view.fi("node._set_ts_start")))
+            "_set_ts_start must call self._ts_start.set_result(ts_start) on the pending future before replacing it", chk.loc(view.fi(k_st)))
     for k_ in ("node.now", "node.throttle"):
         waits = [e for e in view.results[k_].events if e.kind == "call" and e.name == "self._ts_start.result"]
         chk.add("C05.reset", f"episode clock: {k_.split('.')[1]} waits for a pending start time", len(waits) >= 1 and all(mentions(e.guard, "Future") for e in waits),
